@@ -331,6 +331,8 @@ pub struct EOpts {
     pub caller_thread: u16,
     /// the top-level dispatch was a parallel one (for the KF1 signature)
     pub outer_mode: &'static str,
+    /// number of top-level dispatches contained in the trace (1 except for async histories)
+    pub top_mult: usize,
 }
 
 #[derive(Clone, Debug, Default)]
@@ -452,7 +454,7 @@ pub fn e_oracle(plan: &Plan, evs: &[Event], opts: &EOpts, out: &mut Vec<Finding>
             }
         }
     }
-    check_level(plan, None, 1, 0, "top", &w, opts, out, &mut st);
+    check_level(plan, None, opts.top_mult, 0, "top", &w, opts, out, &mut st);
     st
 }
 
